@@ -6,6 +6,7 @@ import (
 	"context"
 	"errors"
 	"hash"
+	"k8s.io/apimachinery/pkg/util/wait"
 	"sort"
 	"sync"
 	"time"
@@ -434,7 +435,8 @@ func M_wait_PollUntilContextTimeout(ctx context.Context, interval, timeout time.
 	return err
 }
 
-var errWaitTimeout = errors.New("timed out waiting for the condition (model)")
+// the real function returns wait.ErrWaitTimeout, which wait.Interrupted recognises
+var errWaitTimeout = wait.ErrWaitTimeout
 
 // M_wait_ExponentialBackoffWithContext: the condition is probed at most twice.
 func M_wait_ExponentialBackoffWithContext(ctx context.Context, backoff any, condition func(context.Context) (bool, error)) error {
